@@ -234,6 +234,13 @@ func (rl *Shell) updatePosRunHints() {
 	hint := core.ResetPostRunIterations(rl.Iterations)
 	register, selected := rl.Buffers.IsSelected()
 
+	// A numeric argument only applies to the command following it (or to
+	// the motion of a pending operator): if that command made no use of
+	// it, it must not be carried over to the commands coming after.
+	if !rl.Iterations.IsSet() && !rl.Keymap.IsPending() {
+		rl.Iterations.Reset()
+	}
+
 	if hint == "" && !selected && !rl.Macros.Recording() {
 		rl.Hint.ResetPersist()
 		return
